@@ -93,7 +93,7 @@ class Patched:
 
     The substitution adapts to how the module spells its imports (`import time` / `from time import time, monotonic`; the same for
     select and os), and every clock the time module offers reads the same virtual time - so that a refactoring of the imports, or a move
-    from time.time() to time.monotonic(), does not turn into a false alarm of the harness."""
+    from time.time() to time.monotonic() for measuring intervals, does not turn into a false alarm of the harness."""
 
     def __init__(self, sim, read_hook=None):
         self.sim = sim
@@ -124,9 +124,16 @@ class Patched:
         def virtual_sleep(dt):
             sim.now += max(0, dt)
 
+        # as in reality the monotonic clocks tick with the wall clock but count from another origin: code that subtracts a
+        # reading of one from a reading of the other goes wrong here as it does there
+        def mono():
+            return sim.time() - 1.0e6
+
         class _T:
-            time = monotonic = perf_counter = staticmethod(sim.time)
-            time_ns = monotonic_ns = perf_counter_ns = staticmethod(lambda: int(sim.time() * 1e9))
+            time = staticmethod(sim.time)
+            monotonic = perf_counter = staticmethod(mono)
+            time_ns = staticmethod(lambda: int(sim.time() * 1e9))
+            monotonic_ns = perf_counter_ns = staticmethod(lambda: int(mono() * 1e9))
             sleep = staticmethod(virtual_sleep)
 
             def __getattr__(self, name):
@@ -143,12 +150,13 @@ class Patched:
             self.saved[name] = vars(ci)[name]
             setattr(ci, name, val)
 
-        clocks = (real_time.time, real_time.monotonic, real_time.perf_counter)
         for name, val in list(vars(ci).items()):
             if val is real_time:
                 put(name, _T())
-            elif any(val is c for c in clocks):
+            elif val is real_time.time:
                 put(name, sim.time)
+            elif val is real_time.monotonic or val is real_time.perf_counter:
+                put(name, mono)
             elif val is real_time.sleep:
                 put(name, virtual_sleep)
             elif val is real_select:
